@@ -120,16 +120,27 @@ func zzNewDest(name string) *zzDest {
 }
 
 func (d *zzDest) Insert(ctx context.Context, pgmut *sync.Mutex, pg wpg.Conn, blocks []eth.Block) (int64, error) {
-	tx, ok := pg.(*zzTx)
-	if !ok {
-		panic("destination called outside the model transaction")
-	}
 	var nums []uint64
 	for i := range blocks {
 		nums = append(nums, blocks[i].Num())
 	}
 	pgmut.Lock()
 	defer pgmut.Unlock()
+	tx, ok := pg.(*zzTx)
+	if !ok {
+		// rows written on the pool itself: own session, committed immediately
+		atx := &zzTx{db: zzCommitted.clone()}
+		if err := atx.insertBlocks(wctx.SrcName(ctx), d.name, nums); err != nil {
+			return 0, err
+		}
+		zzCommitted = atx.db.clone()
+		zzCommits++
+		zzvrf.Event("AUTOCOMMIT rows")
+		if zzAfterCommit != nil {
+			zzAfterCommit(zzCommits)
+		}
+		return int64(len(nums)), nil
+	}
 	if err := tx.insertBlocks(wctx.SrcName(ctx), d.name, nums); err != nil {
 		return 0, err
 	}
